@@ -38,6 +38,7 @@ class Inconclusive(BaseException):
 
 
 CUR = None  # the active Ctx
+PATH_RESET_HOOKS = []   # callables run before each path (restore module-level state)
 
 
 def ctx():
@@ -277,6 +278,8 @@ def explore(fn, timeout_ms=60000, bv=None, ring_p=None, max_paths=200000,
         prefix = c.pending.pop()
         c._new_path(prefix)
         CUR = c
+        for hook in PATH_RESET_HOOKS:
+            hook()
         try:
             c.stats.paths += 1
             res = fn()
